@@ -710,9 +710,15 @@ class PhrasePlugin(Plugin):
                     for t in tokens:
                         words.append(t.text)
                         char_ranges.append((sc + t.startchar, sc + t.endchar))
+                elif field.self_parsing():
+                    # No analyzer (e.g. BOOLEAN): the field interprets the
+                    # quoted text itself, errors come back in-band
+                    q = parser.term_query(fieldname, text, parser.termclass,
+                                          boost=self.boost)
+                    return attach(q, self)
                 else:
                     # We have a field but it doesn't have a format object,
-                    # for some reason (it's self-parsing?), so use process_text
+                    # for some reason, so use process_text
                     # to get the texts (we won't know the start/end chars)
                     words = list(field.process_text(text, mode="query"))
                     char_ranges = [(None, None)] * len(words)
